@@ -196,11 +196,24 @@ def judge(out, dump, space, assign, sp_names, exempt, lang):
         st['judged'] += 1
         rules_seen[R] = rules_seen.get(R, 0) + 1
         ta, tb = ca.text, cb.text
-        hazard = R in NAMED or bool(ta and tb and is_id(ta[-1]) and is_id(tb[0])) or relex_differs(ta, tb, lang)
+        hazard = bool(ta and tb and is_id(ta[-1]) and is_id(tb[0])) or relex_differs(ta, tb, lang)
+        named_remove = False
+        if R in NAMED:
+            # the statement's exception: under Remove a blank is kept between return/case and an operand, a macro name and its body.
+            # Everything else about these rules is judged: the other three values, and that the raw decision is the configured one.
+            if val == 'remove':
+                named_remove = True
+            if R == 'sp_case_label' and val == 'ignore':
+                val = 'add'                  # 'case' and a word/number cannot be written without a blank: ignore and add coincide
         if r.forced and not hazard:
             st['forced_without_hazard'] += 1
         bad = None
-        if val == 'remove':
+        if named_remove:
+            if gap < 1:
+                bad = 'named-remove-but-gap0'
+            elif AV.get(r.av_raw) not in ('force', 'add'):
+                bad = 'value-of-another-option'
+        elif val == 'remove':
             if gap != 0:
                 if hazard:
                     st['exempt_fusion'] += 1
@@ -222,7 +235,7 @@ def judge(out, dump, space, assign, sp_names, exempt, lang):
                 else:
                     bad = 'ignore-but-%s' % ('added' if gap > 0 else 'removed')
         # the value applied must be the value configured for the very option named
-        if bad is None and AV.get(r.av_raw) != val and not hazard and R not in exempt.get('non_plain_rules', {}):
+        if bad is None and not named_remove and AV.get(r.av_raw) != val and not hazard and R not in exempt.get('non_plain_rules', {}):
             bad = 'value-of-another-option'
         if bad:
             ex = exempt.get('rules', {}).get(R)
